@@ -330,6 +330,69 @@ func c08Verdict(u *jsonapi.URL, s *jsonapi.Schema) (string, string) {
 	return "", str
 }
 
+// what url.Parse / Query() / the filter decoders give for the raw string (delegated)
+func sxParsed(raw string) string {
+	pu, err := url.Parse(raw)
+	if err != nil {
+		return "none"
+	}
+	q := pu.Query()
+	names := make([]string, 0, len(q))
+	for k := range q {
+		names = append(names, k)
+	}
+	sort.Strings(names)
+	vals := make([]string, len(names))
+	for i, k := range names {
+		vals[i] = lst(hx(k), hxs(q[k]))
+	}
+	ld, fd := "err", "err"
+	if v := q.Get("filter"); v != "" {
+		var label string
+		if json.Unmarshal([]byte("\""+v+"\""), &label) == nil {
+			ld = lst("ok", hx(label))
+		}
+		f := &jsonapi.Filter{}
+		if json.Unmarshal([]byte(v), f) == nil {
+			if b, err := json.Marshal(f); err == nil {
+				fd = lst("ok", hx(string(b)))
+			}
+		}
+	}
+	return lst(hx(pu.Path), lst(vals...), ld, fd)
+}
+
+func sxPage(m map[string]any) string {
+	ks := sortedKeys(m)
+	items := make([]string, len(ks))
+	for i, k := range ks {
+		switch v := m[k].(type) {
+		case int:
+			items[i] = lst(hx(k), lst("int", itoa(v)))
+		default:
+			items[i] = lst(hx(k), lst("str", hx(fmt.Sprint(v))))
+		}
+	}
+	return lst(items...)
+}
+
+func sxURL(u *jsonapi.URL) string {
+	incs := make([]string, len(u.Params.Include))
+	for i, path := range u.Params.Include {
+		rs := make([]string, len(path))
+		for j := range path {
+			rs[j] = sxRel(path[j])
+		}
+		incs[i] = lst(rs...)
+	}
+	filter := "none"
+	if u.Params.Filter != nil {
+		filter = hx(filterJSON(u.Params.Filter))
+	}
+	return lst(hxs(u.Fragments), b01(u.IsCol), hx(u.ResType), hx(u.ResID), sxRel(u.Rel), sxFieldsMap(u.Params.Fields),
+		hxs(u.Params.SortingRules), sxPage(u.Params.Page), hx(u.Params.FilterLabel), filter, lst(incs...))
+}
+
 func suiteURL(r *Rng, n int, thorough bool, o *Out) {
 	for c := 0; c < n; c++ {
 		s := genURLSchema(r, o)
@@ -352,7 +415,14 @@ func suiteURL(r *Rng, n int, thorough bool, o *Out) {
 				}
 			}
 		}
-		op := lst("url", "parse", lst(tags...), sxSchema(s), hx(raw))
+		labelBody := ""
+		dump := ""
+		if u != nil {
+			lb, _ := json.Marshal(u.Params.FilterLabel)
+			labelBody = string(lb[1 : len(lb)-1])
+			dump = sxURL(u) // before String(), which sorts the field lists in place
+		}
+		op := lst("url", "parse", lst(tags...), sxSchema(s), hx(raw), sxParsed(raw), hx(labelBody))
 		switch {
 		case p:
 			o.stat("res.panic")
@@ -424,7 +494,10 @@ func suiteURL(r *Rng, n int, thorough bool, o *Out) {
 				o.stat("canonical.checked")
 			}
 		}
-		o.emit(op, "ok "+hx(str), pv)
+		if str == "" {
+			guard(func() { str = u.String() })
+		}
+		o.emit(op, "ok "+dump+" "+hx(str), pv)
 	}
 }
 
